@@ -40,10 +40,17 @@ func runC11(c *fw.Ctx, idx int) fw.Result {
 	appendSNP := r.Chance(0.5)
 	s, e := -1, -1
 	wk := "none"
-	if r.Chance(0.4) {
+	switch r.Intn(6) {
+	case 0, 1:
 		s = r.Range(1, L)
 		e = r.Range(s, L)
 		wk = "both"
+	case 2:
+		s = r.Range(1, L)
+		wk = "start"
+	case 3:
+		e = r.Range(1, L)
+		wk = "end"
 	}
 	threads := pickThreads(r)
 	out1, err1 := ac.runVariants(s, e, false, 0, appendSNP, threads)
@@ -54,6 +61,10 @@ func runC11(c *fw.Ctx, idx int) fw.Result {
 	if err1 != nil {
 		res.Fail("error-on-valid-input", "sam variants failed on valid input: "+err1.Error(), files, argv)
 		return res
+	}
+	if idx%15 == 12 {
+		// the same sam variants run through the command-line layer
+		ac.binVariants(c, &res, idx, s, e, false, 0, appendSNP, threads, out1)
 	}
 	n1, m1, ok := model.ParseVariantsCSV(out1)
 	if !ok || len(n1) != len(ac.sf.Queries) {
